@@ -29,10 +29,35 @@ pub fn apply_trailing_args(ctx: &mut LowerCtx, expr: ast::Expr, trailing_args: V
 pub open spec fn takes_args_inward(e: cst::Expr) -> bool {
     e is PrefixExpr || (e matches cst::Expr::BinaryExpr(b) && !b.dot())
 }
+// e with a call WITHOUT arguments put around its operand: through prefix operators and into the right operand of binary operators
+// (`-f()` is `-(f())`, `!!g()` is `!(!(g()))`); everything else is the operand itself and becomes the callee
+pub open spec fn is_nullary_call_of(r: ast::Expr, e: ast::Expr, p: ast::MySyntaxNodePtr) -> bool
+    decreases e,
+{
+    match e {
+        ast::Expr::EUnary { op, expr, astptr } =>
+            r matches ast::Expr::EUnary { op: o2, expr: e2, astptr: a2 } && o2 == op && a2 == astptr && is_nullary_call_of(*e2, *expr, p),
+        ast::Expr::EBinary { op, lhs, rhs, astptr } =>
+            r matches ast::Expr::EBinary { op: o2, lhs: l2, rhs: r2, astptr: a2 } && o2 == op && a2 == astptr && l2 == lhs && is_nullary_call_of(*r2, *rhs, p),
+        _ => r matches ast::Expr::ECall { func, args, astptr } && *func == e && args@.len() == 0 && astptr == p,
+    }
+}
+// an operator node as "callee": the call belongs to its operand.  With arguments they travel inward as trailing arguments; a call without
+// arguments is put around the operand of the lowered operator node
+pub open spec fn operator_callee_lowered(r: Option<ast::Expr>, callee: cst::Expr, all_args: Seq<ast::Expr>, astptr: ast::MySyntaxNodePtr) -> bool {
+    if all_args.len() == 0 {
+        match lowered(callee) {
+            None => r is None,
+            Some(e) => r matches Some(x) && is_nullary_call_of(x, e, astptr),
+        }
+    } else {
+        r == lowered_with(callee, all_args)
+    }
+}
 // `callee(args)` followed by further argument lists `trailing`
 pub open spec fn call_lowered(r: Option<ast::Expr>, callee: cst::Expr, args: Seq<ast::Expr>, trailing: Seq<ast::Expr>, astptr: ast::MySyntaxNodePtr) -> bool {
     if takes_args_inward(callee) {
-        r == lowered_with(callee, args + trailing)
+        operator_callee_lowered(r, callee, args + trailing, astptr)
     } else {
         match lowered(callee) {
             None => r is None,
